@@ -6,6 +6,7 @@ package main
 import (
 	"bufio"
 	"bytes"
+	"context"
 	"crypto/tls"
 	"encoding/binary"
 	"encoding/json"
@@ -21,8 +22,11 @@ import (
 	xhttp2 "golang.org/x/net/http2"
 	"golang.org/x/net/http2/h2c"
 	"golang.org/x/net/http2/hpack"
+	"mosn.io/api"
 	v2 "mosn.io/mosn/pkg/config/v2"
 	"mosn.io/mosn/pkg/metrics"
+	"mosn.io/mosn/pkg/protocol/xprotocol"
+	"mosn.io/mosn/pkg/protocol/xprotocol/bolt"
 	"verif/e2e"
 	"verif/vh"
 )
@@ -184,6 +188,32 @@ func h2Upstream() string {
 	return ln.Addr().String()
 }
 
+// ---------------------------------------------------------------- a codec plug-in whose decoder panics
+// The containment mechanism (read loop under recover, connection closed) must hold whatever a decoder does: "c08x"
+// is the bolt wire format, but a frame that starts with 0xEE makes Decode panic.
+
+const panicCodec = "c08x"
+
+type xpProtocol struct{ api.XProtocol }
+
+func (p xpProtocol) Name() api.ProtocolName { return panicCodec }
+func (p xpProtocol) Decode(ctx context.Context, data api.IoBuffer) (interface{}, error) {
+	if data.Len() > 0 && data.Bytes()[0] == 0xEE {
+		panic("c08: injected decoder panic")
+	}
+	return p.XProtocol.Decode(ctx, data)
+}
+func (p xpProtocol) Trigger(context.Context, uint64) api.XFrame { return nil }
+
+type xpCodec struct{ inner bolt.XCodec }
+
+func (c *xpCodec) ProtocolName() api.ProtocolName { return panicCodec }
+func (c *xpCodec) NewXProtocol(ctx context.Context) api.XProtocol {
+	return xpProtocol{c.inner.NewXProtocol(ctx)}
+}
+func (c *xpCodec) ProtocolMatch() api.ProtocolMatch { return nil }
+func (c *xpCodec) HTTPMapping() api.HTTPMapping     { return nil }
+
 // ---------------------------------------------------------------- the run
 
 // ftrace writes every event straight to the file: if the proxy takes the process down, what happened before is on disk.
@@ -338,6 +368,8 @@ func poisonBytes(p poison) []byte {
 		return boltFrame(0, 77, 0, [][2]string{{"service", "c08"}}, []byte("pong"), 2)
 	case "bolt/noise":
 		return []byte{1, 1, 0xff, 0xfe, 0xfd, 0, 0, 0, 0, 9, 9, 9, 9, 0xff, 0xff, 0, 0, 0, 0, 0, 0, 1, 0x80, 0x80}
+	case panicCodec + "/decoder-panics":
+		return []byte{0xEE, 1, 2, 3, 4, 5, 6, 7, 8, 9, 10, 11, 12, 13, 14, 15, 16, 17, 18, 19, 20, 21, 22, 23}
 	case "dubbothrift/frame-minus-2-bytes":
 		f := buildThrift(false, 77)
 		return f[:len(f)-2]
@@ -400,7 +432,7 @@ func runE2E(casesPath, tracePath string) {
 	boltUp := boltUpstream()
 	dir, _ := os.MkdirTemp("", "c08-e2e-")
 	defer os.RemoveAll(dir)
-	env := &e2eEnv{tr: tr, addr: map[string]string{"bolt": e2e.FreeAddr(), "dubbothrift": e2e.FreeAddr(), "http1": e2e.FreeAddr(), "http2": e2e.FreeAddr()}}
+	env := &e2eEnv{tr: tr, addr: map[string]string{"bolt": e2e.FreeAddr(), "dubbothrift": e2e.FreeAddr(), panicCodec: e2e.FreeAddr(), "http1": e2e.FreeAddr(), "http2": e2e.FreeAddr()}}
 	svc := func(r *v2.Router) {
 		r.Match = v2.RouterMatch{Headers: []v2.HeaderMatcher{{Name: "service", Value: "c08"}}}
 	}
@@ -410,11 +442,14 @@ func runE2E(casesPath, tracePath string) {
 			Routes: []e2e.RouteSpec{{Prefix: "/", Cluster: "c08boltup", TimeoutMs: 3000, Extra: svc}}}),
 		e2e.BuildListener(e2e.ListenerSpec{Name: "c08thrift", Addr: env.addr["dubbothrift"], Downstream: "X", Upstream: "X", SubProto: "dubbo-thrift",
 			Routes: []e2e.RouteSpec{{Prefix: "/", Cluster: "c08boltup", TimeoutMs: 3000, Extra: svc}}}),
+		e2e.BuildListener(e2e.ListenerSpec{Name: "c08xl", Addr: env.addr[panicCodec], Downstream: "X", Upstream: "X", SubProto: panicCodec,
+			Routes: []e2e.RouteSpec{{Prefix: "/", Cluster: "c08boltup", TimeoutMs: 3000, Extra: svc}}}),
 		e2e.BuildListener(e2e.ListenerSpec{Name: "c08h1", Addr: env.addr["http1"], Downstream: "Http1", Upstream: "Http1", Routes: httpRoutes}),
 		e2e.BuildListener(e2e.ListenerSpec{Name: "c08h2", Addr: env.addr["http2"], Downstream: "Http2", Upstream: "Http2",
 			Routes: []e2e.RouteSpec{{Prefix: "/", Cluster: "c08h2up", TimeoutMs: 3000}}}),
 	}
-	lname := map[string]string{"bolt": "c08bolt", "dubbothrift": "c08thrift", "http1": "c08h1", "http2": "c08h2"}
+	vh.Must(xprotocol.RegisterXProtocolCodec(&xpCodec{}), "register the panicking codec")
+	lname := map[string]string{panicCodec: "c08xl", "bolt": "c08bolt", "dubbothrift": "c08thrift", "http1": "c08h1", "http2": "c08h2"}
 	clusters := e2e.BuildClusters([]e2e.ClusterSpec{{Name: "c08good", Hosts: []string{good.Addr}}, {Name: "c08bad", Hosts: []string{badHTTP}},
 		{Name: "c08boltup", Hosts: []string{boltUp}}, {Name: "c08h2up", Hosts: []string{h2Upstream()}}})
 	m := e2e.StartMosn(e2e.BuildConfig(listeners, clusters, e2e.ScratchLog(dir)))
@@ -504,7 +539,7 @@ func runE2E(casesPath, tracePath string) {
 			hmu.Unlock()
 			// a healthy exchange first (the connection exists inside the proxy)
 			switch p.Proto {
-			case "bolt":
+			case "bolt", panicCodec:
 				ok, d := serveBolt(c, r, uint32(1000+i), "ok", waitServe)
 				tr.Emit(vh.Ev{"ev": "serve", "c": id, "ok": ok, "what": "before-poison", "detail": d})
 			case "http1":
@@ -571,7 +606,7 @@ func runE2E(casesPath, tracePath string) {
 		h.c.Close()
 		tr.Emit(vh.Ev{"ev": "close", "c": h.id})
 	}
-	for _, proto := range []string{"bolt", "dubbothrift", "http1", "http2"} {
+	for _, proto := range []string{"bolt", panicCodec, "dubbothrift", "http1", "http2"} {
 		if proto == "http2" && !h2ok {
 			continue
 		}
